@@ -64,6 +64,13 @@ pub fn shrink(orig: &Trace, rule: R, budget: usize, unknown: &dyn Fn(&Violation)
             }
             chunk /= 2;
         }
+        if cur.ctor_default && execs < budget {
+            let mut cand = cur.clone();
+            cand.ctor_default = false;
+            if try_accept(cand, &mut cur, &mut idx, &mut detail, &mut execs) {
+                progress = true;
+            }
+        }
         // ---- simplify the clock's read step
         for t in [0u128, 1] {
             if execs >= budget || cur.read_step_ns <= t {
